@@ -54,6 +54,13 @@ func checkText(w *eng.W, b ref.Bits, v ref.Val, full bool) {
 			if g := dec.Append(pre, d, verb, -1); string(g) != "xy"+want {
 				fail("Append("+string(verb)+",-1)", string(g), "xy"+want)
 			}
+			// "that text" includes the e/f/g forms: they must parse back to d as well
+			if v.Class == ref.Fin {
+				pv, perr := dec.Parse(want)
+				if perr != nil || !ref.SameValue(V(pv), v) {
+					fail("Parse(Format("+string(verb)+",-1))", fmt.Sprint(V(pv), " err=", perr, " text=", short(want)), v.String())
+				}
+			}
 		}
 		w.EvalN(7)
 	}
@@ -121,6 +128,7 @@ func C06(r *eng.Run) {
 	if !r.Thorough() {
 		shapes = dedupe(append(shapes, WordShapes()...))
 	}
+	shapes = dedupe(append(shapes, LimitShapes()...))
 	type cz struct{ c *big.Int }
 	var coefs []*big.Int
 	for _, c := range shapes {
@@ -182,6 +190,27 @@ func C06(r *eng.Run) {
 		w.Cell("digit-pair-sweep", true)
 	})
 	r.Phase("A2 digit pairs", t0, nil)
+
+	// A2b: the round trip is exact whatever DefaultRoundingMode is (the text denotes d exactly)
+	t0 = time.Now()
+	saved := dec.DefaultRoundingMode
+	for drm := 1; drm < 6; drm++ {
+		dec.DefaultRoundingMode = LibModes[drm]
+		r.Par(len(coefs), func(w *eng.W, i int) {
+			if i%4 != drm%4 && !r.Thorough() {
+				return
+			}
+			for _, q := range []int{ref.MinQ, -40, -7, -1, 0, 3, 6, 40, 3000, ref.MaxQ - 1, ref.MaxQ} {
+				for s := 0; s < 2; s++ {
+					b := MkBits(s == 1, coefs[i], q)
+					checkText(w, b, ref.Val{Class: ref.Fin, Neg: s == 1, C: coefs[i], Q: q}, true)
+				}
+			}
+			w.Cell("round-trip-under-"+MName(drm), true)
+		})
+	}
+	dec.DefaultRoundingMode = saved
+	r.Phase("A2b round trip under every DefaultRoundingMode", t0, nil)
 
 	t0 = time.Now()
 	r.Par(2, func(w *eng.W, s int) {
